@@ -118,13 +118,13 @@ theorem Agree.trans {a b c : G} (h : Agree a b) (h' : Agree b c) : Agree a c := 
 
 /-! ### T12.1: quiet steps restore the mode, the serializer and its preferences, the profiles -/
 
-theorem swallowImport_g (r : R) : (swallowImport r).g = r.g := by
-  unfold swallowImport; split
+theorem importLoad_g (r : R) : (importLoad r).1.g = r.g := by
+  unfold importLoad; split
   · split <;> rfl
   · rfl
 
-theorem swallowImport_obs (r : R) : (swallowImport r).obs = r.obs := by
-  unfold swallowImport; split
+theorem importLoad_obs (r : R) : (importLoad r).1.obs = r.obs := by
+  unfold importLoad; split
   · split <;> rfl
   · rfl
 
@@ -150,6 +150,19 @@ theorem seqR_kept {g : G} {a : R} {k : G → R} (ha : Kept g a.g) (hk : ∀ g1, 
   split
   · exact ha
   · exact ha.trans (hk _)
+
+theorem importTwice_kept (attempt : G → R) (g : G) (h : ∀ g1, Kept g1 (attempt g1).g) :
+    Kept g (importTwice attempt g).g := by
+  unfold importTwice
+  simp only []
+  have h1 : Kept g (importLoad (attempt g)).1.g := by rw [importLoad_g]; exact h g
+  split
+  · exact h1
+  · split
+    · exact h1
+    · apply seqR_kept h1
+      intro g1
+      rw [importLoad_g]; exact h g1
 
 theorem withParseSetting_kept (p : Parser) (body : G → R) (g : G) (hb : ∀ g1, Kept g1 (body g1).g) :
     Kept g (withParseSetting p body g).g := by
@@ -210,8 +223,9 @@ theorem runStep_kept (env : Env) (fuel : Nat) : ∀ (s : Step) (g : G), quiet s 
   | .imp inner res sub, g, h => by
     simp only [quiet, Bool.and_eq_true] at h
     simp only [runStep]
-    rw [swallowImport_g]
-    apply seqR_kept (Kept.refl g)
+    apply importTwice_kept
+    intro g0
+    apply seqR_kept (Kept.refl g0)
     intro g1
     apply seqR_kept (runSteps_kept env fuel inner g1 h.1)
     intro g2
@@ -310,6 +324,20 @@ theorem seqR_saved {a : R} {k : G → R} (ha : SavedOK a) (hk : ∀ g1, g1.saved
     intro ⟨h1, h2⟩
     exact hk _ (ha h1) h2
 
+theorem importLoad_saved {r : R} (h : SavedOK r) : SavedOK (importLoad r).1 := by
+  unfold SavedOK; rw [importLoad_g, importLoad_obs]; exact h
+
+theorem importTwice_saved (attempt : G → R) (g : G) (hg : g.saved = [])
+    (h : ∀ g1, g1.saved = [] → SavedOK (attempt g1)) : SavedOK (importTwice attempt g) := by
+  unfold importTwice
+  simp only []
+  have h1 : SavedOK (importLoad (attempt g)).1 := importLoad_saved (h g hg)
+  split
+  · exact h1
+  · split
+    · exact h1
+    · exact seqR_saved h1 fun g1 hg1 => importLoad_saved (h g1 hg1)
+
 theorem withParseSetting_saved (p : Parser) (body : G → R) (g : G) (hb : SavedOK (body { g with raising := p.raising })) :
     SavedOK (withParseSetting p body g) := by
   unfold withParseSetting SavedOK
@@ -330,10 +358,9 @@ theorem runStep_saved (env : Env) (hwf : wfEnv env = true) (fuel : Nat) : ∀ (s
   | .imp inner res sub, g, h, hg => by
     simp only [topOK, Bool.and_eq_true] at h
     simp only [runStep]
-    have hsw : ∀ r, SavedOK r → SavedOK (swallowImport r) := by
-      intro r hr; unfold SavedOK; rw [swallowImport_g, swallowImport_obs]; exact hr
-    apply hsw
-    apply seqR_saved (fun _ => hg)
+    apply importTwice_saved _ g hg
+    intro g0 hg0
+    apply seqR_saved (fun _ => hg0)
     intro g1 hg1
     apply seqR_saved (runSteps_saved env hwf fuel inner g1 h.1 hg1)
     intro g2 hg2
@@ -446,15 +473,29 @@ theorem withParseSetting_sim (p : Parser) (body body' : G → R) (g g' : G) (hg 
   simp only [hr]
   exact h3.setRaising _
 
-theorem swallowImport_sim {r r' : R} (h : Sim r r') : Sim (swallowImport r) (swallowImport r') := by
+theorem importLoad_sim {r r' : R} (h : Sim r r') :
+    Sim (importLoad r).1 (importLoad r').1 ∧ (importLoad r).2 = (importLoad r').2 := by
   obtain ⟨h1, h2, h3⟩ := h
-  unfold swallowImport
+  unfold importLoad
   rw [← h1]
   split
   · split
-    · exact ⟨rfl, h2, h3⟩
-    · exact ⟨h1, h2, h3⟩
-  · exact ⟨h1, h2, h3⟩
+    · exact ⟨⟨rfl, h2, h3⟩, rfl⟩
+    · exact ⟨⟨h1, h2, h3⟩, rfl⟩
+  · exact ⟨⟨h1, h2, h3⟩, rfl⟩
+
+theorem importTwice_sim (attempt attempt' : G → R) (g g' : G) (hg : Agree g g')
+    (h : ∀ g g', Agree g g' → Sim (attempt g) (attempt' g')) :
+    Sim (importTwice attempt g) (importTwice attempt' g') := by
+  unfold importTwice
+  simp only []
+  obtain ⟨h1, h2⟩ := importLoad_sim (h g g' hg)
+  rw [← h2, ← h1.1]
+  split
+  · exact h1
+  · split
+    · exact h1
+    · exact seqR_sim h1 fun g1 g1' hg1 => (importLoad_sim (h g1 g1' hg1)).1
 
 theorem decode_sim (inp : Input) (g g' : G) (k k' : G → R) (hg : Agree g g') (hk : Sim (k g) (k' g')) :
     Sim (decode inp g k) (decode inp g' k') := by
@@ -508,9 +549,10 @@ theorem runStep_sim (env : Env) (fuel : Nat) : ∀ (s : Step) (g g' : G), Agree 
     split <;> exact ⟨rfl, rfl, h⟩
   | .imp inner res sub, g, g', h => by
     simp only [runStep]
-    apply swallowImport_sim
-    refine seqR_sim (a := ⟨.ok (), g, [.seen g.raising]⟩) (a' := ⟨.ok (), g', [.seen g'.raising]⟩) ⟨rfl, ?_, h⟩ ?_
-    · simp [h.1]
+    apply importTwice_sim _ _ g g' h
+    intro g0 g0' h0
+    refine seqR_sim (a := ⟨.ok (), g0, [.seen g0.raising]⟩) (a' := ⟨.ok (), g0', [.seen g0'.raising]⟩) ⟨rfl, ?_, h0⟩ ?_
+    · simp [h0.1]
     intro g1 g1' h1
     apply seqR_sim (runSteps_sim env fuel inner g1 g1' h1)
     intro g2 g2' h2
@@ -656,5 +698,16 @@ theorem seqR_head (a : R) (k : G → R) (x : Obs) (h : a.obs.head? = some x) :
   · cases ha : a.obs with
     | nil => simp [ha] at h
     | cons y ys => simp [ha] at h ⊢; exact h
+
+theorem importTwice_head (attempt : G → R) (g : G) (x : Obs) (h : (attempt g).obs.head? = some x) :
+    (importTwice attempt g).obs.head? = some x := by
+  unfold importTwice
+  simp only []
+  have h1 : (importLoad (attempt g)).1.obs.head? = some x := by rw [importLoad_obs]; exact h
+  split
+  · exact h1
+  · split
+    · exact h1
+    · exact seqR_head _ _ _ h1
 
 end CssVerif.Globals
